@@ -167,10 +167,12 @@ static std::vector<Mode> modes_of(const Seed& s) { return s.structured() ? std::
 static bool compressed(const Seed& s) { return s.fmt.find('.') != std::string::npos; }
 static std::string base_fmt(const Seed& s) { return s.fmt == "pbfz" ? "pbf" : s.fmt; }
 
+static std::string ONLY;      // debugging aid: restrict the enumeration to seeds/prefixes whose name contains this
 static void build_blocks(const std::string& part) {
     BLOCKS.clear(); TOTAL = 0;
     for (int si = 0; si < static_cast<int>(SEEDS.size()); ++si) {
         const Seed& s = SEEDS[si];
+        if (!ONLY.empty() && s.name.find(ONLY) == std::string::npos) continue;
         const size_t n = s.data.size();
         if (part == "E1") {
             add_block(K_TRUNC_RAW, si, RAW, 0, n);
@@ -196,6 +198,7 @@ static void build_blocks(const std::string& part) {
             unsigned maxlen = 2;
             if (THOROUGH && (p.name == "whole" || p.name == "after-magic" || p.name == "node-body" || p.name == "node-fields" || p.name == "data-blob")) maxlen = 3;
             if (len == 0 && p.name != "whole") continue;
+            if (!ONLY.empty() && (p.fmt + "-" + p.name).find(ONLY) == std::string::npos) continue;
             if (len <= maxlen) add_block(K_TINY, pi, RAW, static_cast<int>(len), benum::ipow(256, len));
         }
     }
@@ -716,7 +719,7 @@ int main(int argc, char** argv) {
         return 0;
     }
     std::string part, data = C03_DATA;
-    for (size_t i = 0; i + 1 < a.rest.size(); ++i) { if (a.rest[i] == "--part") part = a.rest[i + 1]; if (a.rest[i] == "--data") data = a.rest[i + 1]; }
+    for (size_t i = 0; i + 1 < a.rest.size(); ++i) { if (a.rest[i] == "--part") part = a.rest[i + 1]; if (a.rest[i] == "--data") data = a.rest[i + 1]; if (a.rest[i] == "--only") ONLY = a.rest[i + 1]; }
     load_data(data);
     build_blocks(part);
     if (std::find(a.rest.begin(), a.rest.end(), "--count") != a.rest.end()) { printf("%s %llu\n", part.c_str(), static_cast<unsigned long long>(TOTAL)); return 0; }
